@@ -51,6 +51,9 @@ EDGE_TEXTS = [
     "0.5x + 0.5y", "0.25a + 0.25b + 3", "(3 + 0.5x) + 0.5y", "0.5 + 0.5y", "0.5x + 0.5", "0.1x + 0.1y^2", "0.5x^2 + 0.5y^3", "0.5x + (0.5y + z)",
     # constant powers outside the real domain / at its edges (numpy answers nan or inf with a warning)
     "-8^0.5 + x", "-8^(1 / 3)", "7y + -3y + -8^0.5", "-2^0.5 * x", "-1^2.5", "0^-1 + x", "0^-0.5", "(2 - 10)^0.5", "-4^0.5 * -4^0.5",
+    # a division by a negated chain / product (rewrites inside the negation, then the division itself)
+    "x / -(a * b * c)", "y / -(a + b + c)", "y / -(x * (a + b))", "(x + 1) / -(2y * z * w)", "4 / -((a * b) * c)", "x / -(2a + 3a)", "1 / -(x * x)", "-(a + b + c) / -(a * b)",
+    "sgn(a + b + c) + 1", "-(a * b * c) * x", "(a + b + c)!" if False else "-(2x + 3x + y)",
     # unlike variables with a common fractional coefficient AND equal explicit exponents
     "0.5x^2 + 0.5y^2", "z + (0.25x^3 + 0.25y^3)", "0.5x^2 + 0.5y^2 + 0.5z^2", "0.1x^-1 + 0.1y^-1",
     # a power of a power (even inner exponent, fractional outer one: sqrt of a square is |x|, not x)
@@ -178,6 +181,9 @@ def start_texts(cfg, rng, n_random, equations=0.25):
             yield "random", WE.random_expr(rng), []
 
 
+_STARTS = [0]
+
+
 def parse_start(text, allow_big=False):
     MR.new_lineage()
     try:
@@ -187,6 +193,27 @@ def parse_start(text, allow_big=False):
     sh = S.shadow(root)
     if (D.too_big(sh) and not allow_big and not D.is_long(sh)) or S.has_nonfinite(sh):
         return None
+    _STARTS[0] += 1
+    if _STARTS[0] % 6 == 0:
+        numpify(root)
+    return root
+
+
+def numpify(root):
+    """every sixth start tree carries its non-integer constants as numpy.float64 -- the type the
+    library's own constant folding leaves in a tree (np.power, np.float64 arithmetic) -- instead of
+    Python floats: same values, same text, another numeric type flowing through every rule"""
+    import numpy as np
+    from mathy_core.expressions import ConstantExpression
+    from .. import core
+
+    n = 0
+    for node in S.nodes_preorder(root):
+        if isinstance(node, ConstantExpression) and type(node.value) is float:
+            node.value = np.float64(node.value)
+            n += 1
+    if n:
+        core.REC.arm("start:float-constants-as-numpy-float64")
     return root
 
 
